@@ -21,6 +21,8 @@ def handle_cell(cell: Cell, titles: Dict[str, int]):
     if isinstance(cell.row, str):
         if cell.row:
             cell.row = int(cell.row) - 1
+            if cell.row < 0:
+                raise E2PyclCellException('Rows are numbered from 1')
         else:
             cell.row = None
 
